@@ -5,6 +5,7 @@ import ast
 
 from ..core import Ctx, RuleResult, anchor_files, rule
 from ..dims import check_dispatch_arms, check_function_units
+from ..kit import own_nodes
 from ..model import UNKNOWN, AnalysisError, mangle, unparse
 
 
@@ -319,4 +320,172 @@ def r09_9_hebrew_set_year_months(ctx: Ctx) -> RuleResult:
                     rr.ok({"years": kinds, "month": m, "result_month": want})
                 else:
                     rr.fail(f.qual, f"year change {kinds}, scriptural month {m}: result month {got}, the documented rule gives {want} (adding years does not keep the month / is not undone by subtracting them)", f.loc)
+    return rr
+
+
+@rule("C09")
+def r09_10_overflow_bounds(ctx: Ctx) -> RuleResult:
+    """Month / year / day arithmetic refuses results outside the calendar with OverflowError.  The year a result is tested against
+    must be the range the calculator advertises (`_min_year` / `_max_year`, which every validation and conversion uses) - a bound
+    taken from somewhere else (an internal table limit one larger) lets arithmetic produce dates that construction rejects."""
+    from ..calendars import calculator_instances
+
+    rr = RuleResult("R09.10", "overflow guards of date arithmetic test the year against the calculator's advertised _min_year / _max_year", min_instances=5)
+    M = ctx.M
+    inst_by_cls: dict[str, list] = {}
+    for ci in calculator_instances(ctx):
+        inst_by_cls.setdefault(ci.cls, []).append(ci)
+    for f in sorted(set(M.func_of_node.values()), key=lambda x: x.qual):
+        if isinstance(f.node, ast.Lambda) or not ("/calendars/" in f.mod.rel or "/fields/" in f.mod.rel):
+            continue
+        for n in own_nodes(f.node):
+            if not (isinstance(n, ast.If) and any(isinstance(s, ast.Raise) and s.exc is not None and "OverflowError" in unparse(s.exc) for s in n.body)):
+                continue
+            cmps = [c for c in ast.walk(n.test) if isinstance(c, ast.Compare) and len(c.ops) == 1 and isinstance(c.ops[0], (ast.Lt, ast.Gt, ast.LtE, ast.GtE))]
+            for c in cmps:
+                if "year" not in unparse(c.left).lower():
+                    continue
+                rr.inst()
+                b = c.comparators[0]
+                lower = isinstance(c.ops[0], (ast.Lt, ast.LtE))
+                want_attr = "_min_year" if lower else "_max_year"
+                if isinstance(b, ast.Attribute) and b.attr == want_attr:
+                    rr.ok({"fn": f.qual, "guard": unparse(c)})
+                    continue
+                v = M.fold(b, f.cls, f.mod)
+                insts = [ci for k in (M.mro(f.cls) if f.cls else []) for ci in inst_by_cls.get(k.name, [])] if f.cls else []
+                if f.cls is not None:
+                    insts += [ci for name, lst in inst_by_cls.items() for ci in lst if M.cls(name, required=False) is not None and M.is_subclass(M.cls(name), f.cls.name) and ci not in insts]
+                adv = {(ci.min_year if lower else ci.max_year) for ci in insts}
+                if isinstance(v, int) and adv and adv == {v}:
+                    rr.ok({"fn": f.qual, "guard": unparse(c), "bound": v, "advertised": v})
+                else:
+                    rr.fail(f.qual, f"overflow guard `{unparse(c)}` tests against `{unparse(b)}`" + (f" = {v}" if isinstance(v, int) else "") + f", not the calculator's advertised {want_attr}" + (f" ({sorted(adv)})" if adv else ""), ctx.loc(f, c))
+    return rr
+
+
+# ------------------------------------------------------------------------------------------- Hebrew month numbering kinds
+
+
+@rule("C09")
+def r09_11_hebrew_month_kinds(ctx: Ctx) -> RuleResult:
+    """The Hebrew calculator juggles three month numberings: the instance's own ("calendar"), civil and scriptural.  Every month
+    value gets a kind from where it comes from (a converter's result, the month of a date handed in, the scriptural helper's
+    results) and every consumer expects one (the instance's own methods take calendar months, _HebrewScripturalCalculator takes
+    scriptural months, each converter takes its source numbering).  A definite mismatch - e.g. a scriptural month handed to
+    `self._get_days_in_month`, which converts it again - gives wrong month lengths in one of the two numberings only.
+    Flow-sensitive per function (strong updates, both arms of branches); integer constants and month +/- constant keep the kind;
+    unknown kinds are never reported."""
+    rr = RuleResult("R09.11", "Hebrew calculator: every month value reaches consumers of its own numbering kind (calendar / civil / scriptural)", min_instances=12)
+    M = ctx.M
+    cls = M.cls("_HebrewYearMonthDayCalculator")
+    scr = M.cls("_HebrewScripturalCalculator")
+    RESULT = {"calendar_to_civil_month": "CIV", "calendar_to_scriptural_month": "SCR", "civil_to_calendar_month": "CAL", "scriptural_to_calendar_month": "CAL",
+              "_scriptural_to_civil": "CIV", "_civil_to_scriptural": "SCR"}
+    EXPECT = {"calendar_to_civil_month": "CAL", "calendar_to_scriptural_month": "CAL", "civil_to_calendar_month": "CIV", "scriptural_to_calendar_month": "SCR",
+              "_scriptural_to_civil": "SCR", "_civil_to_scriptural": "CIV"}
+
+    def short(fn_expr: ast.expr) -> str:
+        return unparse(fn_expr).split(".")[-1].replace("_HebrewYearMonthDayCalculator__", "").lstrip("_") if unparse(fn_expr).split(".")[-1].startswith("__") else unparse(fn_expr).split(".")[-1]
+
+    for f in sorted(cls.all_defs, key=lambda x: x.qual):
+        if isinstance(f.node, ast.Lambda) or short(ast.Name(f.name)) in RESULT or f.name.strip("_") in RESULT:
+            continue
+        env: dict[str, str | None] = {}
+        scr_objs: set[str] = set()
+        for p in f.value_params:
+            if p.arg == "month":
+                env["month"] = "CAL"
+
+        def kind(e: ast.expr, env: dict) -> str | None:
+            if isinstance(e, ast.Name):
+                return env.get(e.id)
+            if isinstance(e, ast.Attribute) and e.attr == "_month" and isinstance(e.value, ast.Name):
+                return "SCR" if e.value.id in scr_objs else "CAL"
+            if isinstance(e, ast.Call):
+                nm = short(e.func)
+                if nm in RESULT:
+                    return RESULT[nm]
+                return None
+            if isinstance(e, ast.BinOp) and isinstance(e.op, (ast.Add, ast.Sub)):
+                if isinstance(e.right, ast.Constant):
+                    return kind(e.left, env)
+                if isinstance(e.left, ast.Constant) and isinstance(e.op, ast.Add):
+                    return kind(e.right, env)
+            if isinstance(e, ast.IfExp):
+                a, b = kind(e.body, env), kind(e.orelse, env)
+                return a if a == b else None
+            return None
+
+        def exempt(n: ast.AST) -> bool:
+            p = getattr(n, "_parent", None)
+            while p is not None and p is not f.node:
+                if isinstance(p, (ast.If, ast.IfExp)) and "month_numbering" in unparse(p.test):
+                    return True
+                p = getattr(p, "_parent", None)
+            return False
+
+        def check_calls(e: ast.AST, env: dict) -> None:
+            for c in ast.walk(e):
+                if not isinstance(c, ast.Call) or exempt(c):
+                    continue
+                nm = short(c.func)
+                want, arg = None, None
+                if nm in EXPECT and len(c.args) >= 2:
+                    want, arg = EXPECT[nm], c.args[1]
+                else:
+                    tg, how = ctx.R.callees(c, f, count=False)
+                    if how == "resolved" and len(tg) >= 1 and tg[0].cls is not None:
+                        t = tg[0]
+                        from ..kit import bind_args
+
+                        b = bind_args(c, t)
+                        pm = next((p.arg for p in t.value_params if p.arg in ("month", "scriptural_month", "month_of_year")), None)
+                        if pm and pm in b:
+                            if t.cls is scr:
+                                want, arg = "SCR", b[pm]
+                            elif t.cls is cls or t.cls in M.mro(cls):
+                                want, arg = "CAL", b[pm]
+                if want is None or arg is None:
+                    continue
+                got = kind(arg, env)
+                rr.inst()
+                if got is not None and got != want:
+                    names = {"CAL": "calendar (instance numbering)", "CIV": "civil", "SCR": "scriptural"}
+                    rr.fail(f.qual, f"`{unparse(c)[:80]}` is given a {names[got]} month `{unparse(arg)}` but takes a {names[want]} month", ctx.loc(f, c))
+                else:
+                    rr.ok({"fn": f.qual, "call": unparse(c)[:60], "kind": got or "unknown"})
+
+        def block(body: list[ast.stmt], env: dict) -> dict:
+            for s in body:
+                if isinstance(s, (ast.Assign, ast.AnnAssign)) and getattr(s, "value", None) is not None:
+                    check_calls(s.value, env)
+                    t = s.targets[0] if isinstance(s, ast.Assign) else s.target
+                    if isinstance(t, ast.Name):
+                        if isinstance(s.value, ast.Call) and unparse(s.value.func).startswith("_HebrewScripturalCalculator._get_year_month_day"):
+                            scr_objs.add(t.id)
+                        k = kind(s.value, env)
+                        if isinstance(s.value, ast.Constant) and t.id in env:
+                            k = env[t.id]  # a literal month keeps the variable's numbering
+                        env[t.id] = k
+                elif isinstance(s, ast.AugAssign):
+                    check_calls(s.value, env)
+                    if isinstance(s.target, ast.Name) and not isinstance(s.value, ast.Constant):
+                        env[s.target.id] = None
+                elif isinstance(s, ast.If):
+                    check_calls(s.test, env)
+                    e1 = block(s.body, dict(env))
+                    e2 = block(s.orelse, dict(env))
+                    env = {k: (e1.get(k) if e1.get(k) == e2.get(k) else None) for k in set(e1) | set(e2)}
+                elif isinstance(s, (ast.While, ast.For)):
+                    check_calls(s.test if isinstance(s, ast.While) else s.iter, env)
+                    e1 = block(s.body, dict(env))
+                    env = {k: (env.get(k) if env.get(k) == e1.get(k) else None) for k in set(env) | set(e1)}
+                elif isinstance(s, (ast.Return, ast.Expr)) and s.value is not None:
+                    check_calls(s.value, env)
+                elif isinstance(s, ast.Raise) and s.exc is not None:
+                    check_calls(s.exc, env)
+            return env
+
+        block(f.body, env)
     return rr
